@@ -1046,4 +1046,139 @@ theorem shellWord_is_word (q p : List Char) :
   · simp only [specWordChars, PWord.marks, PWordUnit.marks, PText.marks, PTextUnit.marks, List.append_nil]
     rw [escapeMarked_quoted_prefix, escapeMarked_unquoted]
 
+/-- ★ Prefix removal for EVERY pattern, exactly (replacing the hypothesis `noMulti` of `find_is_extremal` /
+    `trim_correct` on the prefix side by a characterisation): with `re` the regex the pattern compiles to under the
+    configuration of `#` / `##` (`\A` followed by the translation of the atoms: `emitted_fragment`), what `${v#p}` /
+    `${v##p}` leave is the FIRST rest in the priority-ordered enumeration `reEnum` of the matches at the beginning of
+    `v` — atoms left to right; a `*` offers its longest continuation first for `##` and its shortest first for `#`; a
+    bracket with multi-character collating elements offers its members in the ORDER THEY ARE WRITTEN (neither the
+    longest nor the shortest: the `decide` examples) — and `v` itself iff the enumeration is empty, i.e. iff no prefix
+    matches (`regex_model_is_textbook`).  Without multi-character elements the first entry is the extremal one
+    (`find_is_extremal`). -/
+theorem prefix_trim_exact (ast : Ast) (len : TrimLength) (p : Pattern) (re : List ReAtom) (dot : Bool)
+    (h : Pattern.fromAst ast (trimConfig .prefix len) = .ok p) (hb : p.body = .regex re dot) (v : List Char) :
+    (∃ res, cAtoms ast = some res ∧ re = .bos :: res) ∧
+    trimValue p v =
+      match (reEnum (len == .longest) v.length re v).head? with
+      | some ρ => v.drop (v.length - ρ.length)
+      | none => v := by
+  -- the compiled regex
+  have hre : ∃ res, cAtoms ast = some res ∧ re = .bos :: res ∧ p.config = trimConfig .prefix len := by
+    unfold Pattern.fromAst at h
+    cases hl : toLiteral ast with
+    | some l => simp [hl] at h; subst h; simp at hb
+    | none =>
+      simp only [hl] at h
+      cases ht : toRegex ast (trimConfig .prefix len) with
+      | error e => simp [ht] at h
+      | ok r =>
+        simp only [ht] at h
+        cases hp : parseRe r with
+        | none => simp [hp] at h
+        | some re' =>
+          simp only [hp, Except.ok.injEq] at h
+          subst h
+          simp only [Body.regex.injEq] at hb
+          obtain ⟨rfl, -⟩ := hb
+          obtain ⟨res, hc, hre, -⟩ := emitted_fragment ast _ r ht re' hp
+          refine ⟨res, hc, ?_, rfl⟩
+          rw [hre]; cases len <;> simp [cfgRe, trimConfig]
+  obtain ⟨res, hc, rfl, hcfg⟩ := hre
+  refine ⟨⟨res, hc, rfl⟩, ?_⟩
+  have hg : (!p.config.shortest) = (len == .longest) := by rw [hcfg]; cases len <;> rfl
+  have hfind : p.find v = (matchHere (len == .longest) v.length (.bos :: res) v).map
+      (fun ρ => (0, v.length - ρ.length)) := by
+    unfold Pattern.find
+    rw [hb]
+    simp only [hg]
+    have hat : Pattern.at0 p.config dot v = 0 := by rw [hcfg]; cases len <;> simp [Pattern.at0, trimConfig]
+    rw [hat]
+    unfold findAt
+    simp only [Nat.zero_le, if_true, List.drop_zero]
+    cases v with
+    | nil => simp only [findFrom]; cases matchHere (len == .longest) 0 (.bos :: res) [] <;> rfl
+    | cons c t =>
+      simp only [findFrom]
+      cases hm : matchHere (len == .longest) (c :: t).length (.bos :: res) (c :: t) with
+      | some ρ => rfl
+      | none =>
+        simp only [Option.map_none]
+        exact findFrom_bos_short _ _ _ t 1 (by simp)
+  have hside : (p.config.anchorEnd && p.config.shortest) = false := by rw [hcfg]; cases len <;> rfl
+  unfold trimValue
+  simp only [hside, Bool.false_eq_true, if_false, hfind, Proofs.matchHere_head]
+  cases (reEnum (len == .longest) v.length (.bos :: res) v).head? with
+  | none => rfl
+  | some ρ => simp
+
+/-- the order in which the members are written decides, not their length: `[a[.ab.]]` vs `[[.ab.]a]`, `##` on `abc` -/
+example :
+    let t (ast : Ast) : Option (List Char) := match Pattern.fromAst ast (trimConfig .prefix .longest) with
+      | .ok p => some (trimValue p "abc".toList)
+      | .error _ => none
+    t [.bracket ⟨false, [.atom (.char 'a'), .atom (.collating ['a', 'b'])]⟩] = some "bc".toList ∧
+    t [.bracket ⟨false, [.atom (.collating ['a', 'b']), .atom (.char 'a')]⟩] = some "c".toList := by decide
+
+/-- ★ The three users of this model inside the shell — `case` (case.rs `config()`), pathname expansion (glob.rs
+    `to_pattern`, C05 imports this area) and the trims (trim.rs `apply`) — build their configurations from flag
+    lists re-extracted on every run, and these differ ONLY there: glob's flags are `case`'s plus `literal_period`, a
+    trim sets one anchor (and `shortest_match` for `#` / `%`).  On a FULL match they agree, for every pattern (brackets
+    included): whenever the tree compiles, `case` accepts `s` iff the glob language contains `s`; pathname expansion
+    accepts `s` iff `case` does and the leading-period rule allows it — so they coincide on every `s` that does not
+    start with a period and for every pattern that starts with an explicit one; and `%%` removes the whole of `s`
+    whenever `case` accepts it. -/
+theorem callers_agree :
+    (caseConfig = cfgOfFlags Generated.FnmatchConfig.caseConfigFlags ∧
+     ∀ e ∈ Generated.FnmatchConfig.literalPeriodConfigs,
+       e.2.filter (· != "literal_period") = Generated.FnmatchConfig.caseConfigFlags ∧ "literal_period" ∈ e.2) ∧
+    (∀ (ast : Ast) (pc : Pattern), Pattern.fromAst ast caseConfig = .ok pc →
+      (∀ s, pc.isMatch s = globMatch ast s) ∧
+      (∀ e ∈ Generated.FnmatchConfig.literalPeriodConfigs, ∀ pg, Pattern.fromAst ast (cfgOfFlags e.2) = .ok pg →
+        ∀ s, pg.isMatch s = (pc.isMatch s && (s.head? != some '.' || explicitDot ast))) ∧
+      (∀ pt, Pattern.fromAst ast (trimConfig .suffix .longest) = .ok pt →
+        ∀ s, pc.isMatch s = true → trimValue pt s = [])) := by
+  refine ⟨⟨by decide, by decide⟩, ?_⟩
+  intro ast pc hpc
+  have hc : ∀ s, pc.isMatch s = globMatch ast s := isMatch_correct ast caseConfig rfl rfl rfl pc hpc
+  refine ⟨hc, ?_, ?_⟩
+  · intro e he pg hpg s
+    rw [(literal_period_reachable.2 e he ast pg hpg s), hc s]; rfl
+  · intro pt hpt s hm
+    rw [(suffix_trim_correct ast .longest pt hpt s).2]
+    rw [hc s] at hm
+    unfold specTrim
+    simp only []
+    have hd := (specTrim_declarative (fun k => globMatch ast (s.drop k)) s.length).1
+    rcases hd with ⟨-, hnone⟩ | ⟨k, hk, -, -, hmin⟩
+    · have := hnone 0 (Nat.zero_le _); simp [hm] at this
+    · rw [hk]
+      cases k with
+      | zero => simp
+      | succ k' => have := hmin 0 (Nat.succ_pos _); simp [hm] at this
+
+/-- ★ What the model of the regex crate ASSUMES, read on every run from the sources of the crates the harness links
+    (versions from harness/Cargo.lock): `Regex` is built with match kind `LeftmostFirst`; `\\A` / `\\z` are the
+    assertions `StartText` / `EndText`, translated to `Look::Start` / `Look::End`, which hold exactly at offset 0 / at
+    the end of the haystack (so `find_at(text, k)` with `\\A` fails for k > 0: the model's `bos`); `swap_greed` negates
+    the greediness of every repetition (flag letter `U`); `.` under `dot_matches_new_line` is any character.  A new
+    version of any of the three crates, or a changed line, fails HERE — the facts have to be read again. -/
+theorem regex_crate_facts :
+    Generated.FnmatchRegexSyntax.crateVersions =
+      [("regex", "1.13.1"), ("regex-automata", "0.4.18"), ("regex-syntax", "0.8.11")] ∧
+    Generated.FnmatchRegexSyntax.regexFacts =
+      [("Regex is built with match kind", "LeftmostFirst"),
+       ("escape A is the assertion", "StartText"), ("escape z is the assertion", "EndText"),
+       ("StartText translates to", "Look::Start"), ("EndText translates to", "Look::End"),
+       ("Look::Start holds when", "at == 0"), ("Look::End holds when", "at == haystack.len()"),
+       ("greediness of a repetition", "if self.flags().swap_greed() { !rep.greedy } else { rep.greedy }"),
+       ("flag letter of swap_greed", "U"),
+       ("dot with dot_matches_new_line and unicode", "Dot::AnyChar")] := by decide
+
+/-- the one place where the implementation and XCU 2.13.1 part (KNOWN_FINDINGS, `w … P5c/D/L2a`): in `$p""*` with
+    `p` = `\\` the backslash quotes the quotation mark, so the `*` stays a wildcard; the Spec reads `\\*` -/
+example :
+    let w : PWord := .cons (.unq (.param ['\\'])) (.cons (.dq .nil) (.cons (.unq (.lit '*')) .nil))
+    patternOfWord w = [.normal '*'] ∧ specWordChars w = [.literal '*'] ∧ noEscapedMark (wordAttrs w) = false := by
+  decide
+
 end YashModel.Fnmatch
